@@ -81,8 +81,19 @@ OKSpec(sp) == /\ (sp.kind = "union" => (~sp.req /\ ~sp.dflt))
               /\ (sp.dflt => HasSimpleDefault(sp.t))
 Specs == SetToSeq({ sp \in TypeSpecs : OKSpec(sp) })
 
+\* type names are derived from the content (not from the position in Specs), so that every
+\* generator run names the same type the same way
+RECURSIVE TName(_)
+TName(t) == CASE t.k = "list" -> "L" \o TName(t.e)
+              [] t.k = "set" -> "S" \o TName(t.e)
+              [] t.k = "map" -> "M" \o TName(t.kt) \o "x" \o TName(t.vt)
+              [] t.k = "ref" -> t.n
+              [] OTHER -> t.k
+SpecName(sp) == (CASE sp.kind = "struct" -> "St" [] sp.kind = "union" -> "Un" [] sp.kind = "exception" -> "Ex")
+                \o TName(sp.t) \o (IF sp.req THEN "R" ELSE "O") \o (IF sp.dflt THEN "D" ELSE "")
+NameOf(i) == SpecName(Specs[i])
 TypeOf(i) == LET sp == Specs[i] IN
-  [name |-> "T" \o ToString(i), kind |-> sp.kind, items |-> <<>>, target |-> B("i32"),
+  [name |-> SpecName(sp), kind |-> sp.kind, items |-> <<>>, target |-> B("i32"),
    fields |-> << Field(1, "f", sp.t, sp.req, IF sp.dflt THEN SimpleDefault(sp.t) ELSE NoDef) >>]
 SchemaOf(i) == Support \o << TypeOf(i) >>
 
